@@ -363,3 +363,8 @@ package store
 //@   ensures [others] forall x *Index :: x != idx ==> x.Entries == old(x.Entries) && x.Header == old(x.Header)
 //@   loop 0:
 //@     invariant forall x *Index :: x != idx ==> x.Entries == old(x.Entries) && x.Header == old(x.Header)
+
+//@ func isValidBranchName
+//@   returns ok
+//@   pure
+//@   ensures [valid] {C10,C03} ok ==> validName(name)
